@@ -88,7 +88,7 @@ def classify_recipe(name, got, out):
             line = "'%s' '%s'" % (at, spelling.replace("'", "'\\''"))
             pred = sh_words_in_scratch(line)
             if pred is None:
-                ok = ok or (got is None and 'Syntax error' in out and '/bin/sh:' in out)
+                ok = ok or (got is None and '/bin/sh:' in out)        # sh rejects the line (syntax error, a redirection)
             else:
                 ok = ok or got == pred
     if not ok:
@@ -146,9 +146,10 @@ def location_signature(c, src, why, mout, recs):
     if c == '%':
         return why == 'the project does not build' and "No rule to make target '%s" % src.replace('%', '\\%') in mout
     if c == "'":
-        # every recipe word '$(srcdir)/...' loses the quote: the compiler is started, with the path without it
+        # every recipe word '$(srcdir)/...' ends its quoting at the quote in the path: the compiler is started, and the path
+        # without the quote is (part of) one of its arguments
         return why == 'touching a source does not recompile it' and \
-            any(r['argv'] and os.path.join(src.replace("'", ''), 'sub/f.c') in r['argv'] for r in recs)
+            any(os.path.join(src.replace("'", ''), 'sub/f.c') in a for r in recs for a in (r['argv'] or []))
     return False
 
 
